@@ -257,10 +257,17 @@ def decide(pid, tier, seed, replay, t0):
     import extract
     with Lock():
         g = extract.main()
+        import translate
+        tr_status = translate.main()
         mod = importlib.import_module("props." + pid.lower())
         prop_modules = [m for m in mod.LEAN_MODULES
                         if os.path.exists(os.path.join(LEAN, m.replace(".", "/") + ".lean"))]
-        if len(prop_modules) != len(mod.LEAN_MODULES):
+        if tier == "thorough":
+            # translation tie: the Python functions re-emitted as Lean by harness/translate.py are PROVED equal to the
+            # model functions (thorough tier only: a harmless rewrite of those functions breaks these proofs)
+            prop_modules += [m for m in getattr(mod, "LEAN_MODULES_THOROUGH", [])
+                             if os.path.exists(os.path.join(LEAN, m.replace(".", "/") + ".lean"))]
+        if len(prop_modules) < len(mod.LEAN_MODULES):
             log("note: theorem module(s) not present yet: %s (property not claimed in MANIFEST until they exist)" % (
                 sorted(set(mod.LEAN_MODULES) - set(prop_modules))))
         problems, info = build_and_audit(prop_modules)
